@@ -959,3 +959,434 @@ Proof.
         -- symmetry. apply pwc_at_skip. lra.
         -- symmetry. apply pwc_at_skip. lra.
 Qed.
+
+Lemma map_fst_combine : forall (a b : list R), length a = length b -> map fst (combine a b) = a.
+Proof.
+  induction a as [|x a IH]; intros [|y b] H; cbn [length] in H; try discriminate; [reflexivity|].
+  cbn [combine map fst]. f_equal. apply IH. lia.
+Qed.
+Lemma map_snd_combine : forall (a b : list R), length a = length b -> map snd (combine a b) = b.
+Proof.
+  induction a as [|x a IH]; intros [|y b] H; cbn [length] in H; try discriminate; [reflexivity|].
+  cbn [combine map snd]. f_equal. apply IH. lia.
+Qed.
+Lemma combine_fst_snd (r : list (R * R)) : combine (map fst r) (map snd r) = r.
+Proof. induction r as [|[x v] r IH]; [reflexivity|]. cbn [map combine fst snd]. f_equal. exact IH. Qed.
+
+Lemma removelast_app1 {A} (l : list A) a : removelast (l ++ [a]) = l.
+Proof. apply removelast_last. Qed.
+
+Lemma wf_decomp f : wf_pwc f -> exists p L c r, f = fn p L c r /\ evs_ok p L r.
+Proof.
+  destruct f as [xs ys]. intros [[Hs Hl] Hlen]. cbn [fst snd] in *.
+  destruct xs as [|p xs']; [cbn in Hl; lia|]. destruct ys as [|c ys']; [cbn in *; lia|].
+  cbn [length] in *. assert (Hne : xs' <> []) by (intros ->; cbn in Hl; lia).
+  pose proof (app_removelast_last 0 Hne) as Ex.
+  set (K := removelast xs') in *. set (L := last xs' 0) in *.
+  assert (HK : length K = length ys').
+  { assert (length xs' = length (K ++ [L])) by (rewrite <- Ex; reflexivity).
+    rewrite app_length in H. cbn [length] in H. lia. }
+  exists p, L, c, (combine K ys'). unfold fn, evs_ok.
+  rewrite map_fst_combine, map_snd_combine by auto. rewrite <- Ex. split; auto.
+Qed.
+
+Lemma interior_fn (p L c : R) (r : list (R * R)) : interior (p :: map fst r ++ [L]) (c :: map snd r) = r.
+Proof. unfold interior. cbn [tl]. rewrite removelast_app1. apply combine_fst_snd. Qed.
+
+Lemma pwc_add_unfold a0 x1 c1 y1 b0 x2 c2 y2 :
+  pwc_add ROps (a0 :: x1, c1 :: y1) (b0 :: x2, c2 :: y2) =
+  if negb (Reqb a0 b0) then Err AssertionError
+  else if negb (Reqb (lastF ROps (a0 :: x1)) (lastF ROps (b0 :: x2))) then Err AssertionError
+  else
+    let E := merged (length (a0 :: x1) + length (b0 :: x2))
+                    (lastF ROps (c1 :: y1)) (lastF ROps (c2 :: y2))
+                    c1 (interior (a0 :: x1) (c1 :: y1)) c2 (interior (b0 :: x2) (c2 :: y2)) in
+    Ok (a0 :: map fst E ++ [lastF ROps (a0 :: x1)], (c1 + c2) :: map snd E).
+Proof.
+  unfold pwc_add, merged. cbn [neqb ROps].
+  destruct (negb (Reqb a0 b0)); [reflexivity|].
+  destruct (negb (Reqb (lastF ROps (a0 :: x1)) (lastF ROps (b0 :: x2)))); [reflexivity|].
+  cbv zeta.
+  destruct (pwc_add_loop ROps (length (a0 :: x1) + length (b0 :: x2)) c1
+              (interior (a0 :: x1) (c1 :: y1)) c2 (interior (b0 :: x2) (c2 :: y2)))
+    as [out [[[d1 s1] d2] s2]].
+  reflexivity.
+Qed.
+
+Lemma lastF_fn p K L : lastF ROps (p :: K ++ [L]) = L.
+Proof. apply (lastF_app1 (p :: K) L). Qed.
+
+Lemma pwc_add_fn p L c1 r1 c2 r2 : evs_ok p L r1 -> evs_ok p L r2 ->
+  pwc_add ROps (fn p L c1 r1) (fn p L c2 r2) = Ok (pwc_add_spec ROps (fn p L c1 r1) (fn p L c2 r2)).
+Proof.
+  intros O1 O2. rewrite pwc_add_spec_unfold. unfold fn at 1 2. rewrite pwc_add_unfold.
+  rewrite !lastF_fn, !interior_fn.
+  destruct (Reqb_spec p p) as [_|N]; [|congruence]. destruct (Reqb_spec L L) as [_|N]; [|congruence].
+  cbn [negb]. cbv zeta.
+  set (fuel := (length (p :: map fst r1 ++ [L]) + length (p :: map fst r2 ++ [L]))%nat).
+  set (e1 := lastF ROps (c1 :: map snd r1)). set (e2 := lastF ROps (c2 :: map snd r2)).
+  assert (Hf : (length r1 + length r2 <= fuel)%nat).
+  { unfold fuel. cbn [length]. rewrite !app_length, !map_length. lia. }
+  destruct (merged_keys fuel e1 e2 c1 r1 c2 r2 p L Hf O1 O2) as [K1 K2].
+  change (fst (fn p L c1 r1)) with (p :: map fst r1 ++ [L]).
+  change (fst (fn p L c2 r2)) with (p :: map fst r2 ++ [L]).
+  assert (Eb : sort_unique ROps ((p :: map fst r1 ++ [L]) ++ (p :: map fst r2 ++ [L])) =
+               p :: map fst (merged fuel e1 e2 c1 r1 c2 r2) ++ [L]).
+  { apply sort_unique_char; auto. intros x. rewrite in_app_iff. cbn [In]. rewrite !in_app_iff.
+    rewrite K2. cbn [In]. tauto. }
+  rewrite Eb. do 2 f_equal. apply merged_vals; auto.
+Qed.
+
+(* 9. the merge loop computes the pointwise sum on the merged support *)
+Theorem pwc_add_eq_spec : forall f g, wf_pwc f -> wf_pwc g ->
+  nthF ROps (fst f) 0 = nthF ROps (fst g) 0 -> lastF ROps (fst f) = lastF ROps (fst g) ->
+  pwc_add ROps f g = Ok (pwc_add_spec ROps f g).
+Proof.
+  intros f g Hf Hg H0 HL.
+  destruct (wf_decomp f Hf) as (p & L & c1 & r1 & -> & O1).
+  destruct (wf_decomp g Hg) as (p' & L' & c2 & r2 & -> & O2).
+  unfold fn in H0, HL. cbn [fst] in H0, HL. rewrite !lastF_fn in HL. rewrite !nthF_0 in H0.
+  subst p' L'. apply pwc_add_fn; auto.
+Qed.
+
+Lemma ssorted_two l a b : ssorted l -> In a l -> In b l -> a < b -> (2 <= length l)%nat.
+Proof.
+  intros _ Ha Hb Hab. destruct l as [|x [|y r]]; cbn [length]; try lia.
+  - destruct Ha.
+  - destruct Ha as [<-|[]]. destruct Hb as [<-|[]]. lra.
+Qed.
+
+Lemma wf_first_in f : wf_pwc f -> In (nthF ROps (fst f) 0) (fst f) /\ In (lastF ROps (fst f)) (fst f)
+  /\ nthF ROps (fst f) 0 < lastF ROps (fst f).
+Proof.
+  intros [[Hs Hl] _]. repeat split.
+  - apply nth_In. lia.
+  - rewrite lastF_nth. apply nth_In. lia.
+  - apply ssorted_first_lt_last; auto.
+Qed.
+
+(* 10 *)
+Theorem pwc_add_wf : forall f g, wf_pwc f -> wf_pwc g ->
+  nthF ROps (fst f) 0 = nthF ROps (fst g) 0 -> lastF ROps (fst f) = lastF ROps (fst g) ->
+  wf_pwc (pwc_add_spec ROps f g).
+Proof.
+  intros f g Hf Hg _ _. rewrite pwc_add_spec_unfold. unfold wf_pwc, wf_x. cbn [fst snd].
+  destruct (wf_first_in f Hf) as (I1 & I2 & I3).
+  assert (H2 : (2 <= length (sort_unique ROps (fst f ++ fst g)))%nat).
+  { apply (ssorted_two _ (nthF ROps (fst f) 0) (lastF ROps (fst f)) (sort_unique_sorted _)); auto;
+      apply sort_unique_In, in_or_app; left; auto. }
+  repeat split; auto using sort_unique_sorted.
+  rewrite map_length, pieces_length. lia.
+Qed.
+
+(* ------------------------------------------------------------------ *)
+(* 7. algebra of the pointwise sum                                      *)
+
+Definition optval (a : option R) : R := match a with Some x => x | None => 0 end.
+Lemma optsum_val a b : optsum ROps a b = optval a + optval b.
+Proof. destruct a, b; cbn; lra. Qed.
+Lemma optsum_comm a b : optsum ROps a b = optsum ROps b a.
+Proof. rewrite !optsum_val. lra. Qed.
+
+Lemma pwc_add_spec_comm f g : pwc_add_spec ROps f g = pwc_add_spec ROps g f.
+Proof.
+  rewrite !pwc_add_spec_unfold.
+  assert (E : sort_unique ROps (fst f ++ fst g) = sort_unique ROps (fst g ++ fst f)).
+  { apply sort_unique_char; [apply sort_unique_sorted|].
+    intros x. rewrite sort_unique_In, !in_app_iff. tauto. }
+  rewrite E. f_equal. apply map_ext. intros q. unfold addval. apply optsum_comm.
+Qed.
+
+(* 12 *)
+Theorem pwc_add_comm : forall f g, wf_pwc f -> wf_pwc g ->
+  nthF ROps (fst f) 0 = nthF ROps (fst g) 0 -> lastF ROps (fst f) = lastF ROps (fst g) ->
+  pwc_add_spec ROps f g = pwc_add_spec ROps g f.
+Proof. intros f g _ _ _ _. apply pwc_add_spec_comm. Qed.
+
+(* 14 *)
+Lemma pwc_at_map c xs : forall ys t,
+  pwc_at ROps xs (map (fun y => y * c) ys) t = option_map (fun y => y * c) (pwc_at ROps xs ys t).
+Proof.
+  induction xs as [|a xs IH]; intros ys t; [reflexivity|].
+  destruct xs as [|b r]; [reflexivity|]. destruct ys as [|y ys]; [reflexivity|].
+  cbn [map]. rewrite !pwc_at_cons2. destruct (Rltb a t && Rltb t b); [reflexivity|apply IH].
+Qed.
+Theorem pwc_mul_pointwise : forall f c t,
+  pwc_at ROps (fst (pwc_mul ROps f c)) (snd (pwc_mul ROps f c)) t =
+  option_map (fun y => y * c) (pwc_at ROps (fst f) (snd f) t).
+Proof. intros f c t. unfold pwc_mul. cbn [fst snd nmul ROps]. apply pwc_at_map. Qed.
+
+(* a piecewise constant function is constant between two consecutive breakpoints *)
+Lemma pwc_at_const_on xs : forall ys a b m m',
+  (forall z, In z xs -> z <= a \/ b <= z) -> a < m < b -> a < m' < b ->
+  pwc_at ROps xs ys m = pwc_at ROps xs ys m'.
+Proof.
+  induction xs as [|x0 xs IH]; intros ys a b m m' H Hm Hm'; [reflexivity|].
+  destruct xs as [|x1 r]; [reflexivity|]. destruct ys as [|y ys]; [reflexivity|].
+  rewrite !pwc_at_cons2.
+  rewrite (IH ys a b m m') by (auto; intros; apply H; right; auto).
+  assert (E0 : Rltb x0 m = Rltb x0 m').
+  { destruct (H x0 (or_introl eq_refl)); destruct (Rltb_spec x0 m), (Rltb_spec x0 m'); auto; lra. }
+  assert (E1 : Rltb m x1 = Rltb m' x1).
+  { destruct (H x1 (or_intror (or_introl eq_refl))); destruct (Rltb_spec m x1), (Rltb_spec m' x1); auto; lra. }
+  rewrite E0, E1. reflexivity.
+Qed.
+
+Lemma pwc_at_pieces (V : R * R -> R) bs : ssorted bs -> forall q m, In q (pieces bs) ->
+  fst q < m < snd q -> pwc_at ROps bs (map V (pieces bs)) m = Some (V q).
+Proof.
+  induction bs as [|a [|b r] IH]; intros Hs q m Hq Hm; [destruct Hq|destruct Hq|].
+  rewrite pieces_cons2 in *. cbn [map]. rewrite pwc_at_cons2. destruct Hq as [<-|Hq].
+  - cbn [fst snd] in Hm. destruct (Rltb_spec a m); [|lra]. destruct (Rltb_spec m b); [reflexivity|lra].
+  - pose proof (ssorted_tl _ _ Hs) as Hs1.
+    destruct (pieces_In _ Hs1 q Hq) as (I1 & _).
+    pose proof (ssorted_hd_le _ _ Hs1) as Hb. rewrite Forall_forall in Hb. apply Hb in I1.
+    destruct (Rltb_spec m b); [lra|]. rewrite andb_false_r. apply IH; auto.
+Qed.
+
+Lemma locate bs : ssorted bs -> forall lo hi m, In lo bs -> In hi bs -> lo < m < hi -> ~ In m bs ->
+  exists q, In q (pieces bs) /\ fst q < m < snd q.
+Proof.
+  induction bs as [|z bs IH]; intros Hs lo hi m Hlo Hhi Hm Hn; [destruct Hlo|].
+  destruct bs as [|z' r].
+  { destruct Hlo as [<-|[]]. destruct Hhi as [<-|[]]. lra. }
+  pose proof (ssorted_hd_le _ _ Hs) as Hb. rewrite Forall_forall in Hb.
+  pose proof (ssorted_tl _ _ Hs) as Hs1.
+  assert (Hzz : z < z') by (apply ssorted_cons_inv in Hs as [_ F]; inversion F; auto).
+  assert (m <> z') by (intros ->; apply Hn; right; left; auto).
+  destruct (Rlt_le_dec m z') as [Hl|Hl].
+  - exists (z, z'). rewrite pieces_cons2. split; [left; auto|]. cbn [fst snd].
+    apply Hb in Hlo. lra.
+  - destruct (IH Hs1 z' hi m) as (q & Hq & Hqm); auto.
+    + left; auto.
+    + destruct Hhi as [<-|]; auto. lra.
+    + lra.
+    + intros Hc. apply Hn. right; auto.
+    + exists q. rewrite pieces_cons2. split; auto. right; auto.
+Qed.
+
+(* value of the sum away from the merged breakpoints *)
+Lemma add_spec_at f g m lo hi :
+  In lo (fst f ++ fst g) -> In hi (fst f ++ fst g) -> lo < m < hi -> ~ In m (fst f ++ fst g) ->
+  pwc_at ROps (fst (pwc_add_spec ROps f g)) (snd (pwc_add_spec ROps f g)) m =
+  Some (optsum ROps (pwc_at ROps (fst f) (snd f) m) (pwc_at ROps (fst g) (snd g) m)).
+Proof.
+  intros Hlo Hhi Hm Hn. rewrite pwc_add_spec_unfold. cbn [fst snd].
+  set (B := sort_unique ROps (fst f ++ fst g)).
+  assert (HsB : ssorted B) by apply sort_unique_sorted.
+  destruct (locate B HsB lo hi m) as (q & Hq & Hqm); auto;
+    try (apply sort_unique_In; auto).
+  { intros Hc. apply Hn. unfold B in Hc. apply (proj1 (sort_unique_In _ _)) in Hc. auto. }
+  rewrite (pwc_at_pieces _ B HsB q m Hq Hqm). unfold addval.
+  destruct (pieces_In B HsB q Hq) as (_ & _ & I3 & I4).
+  destruct q as [a b]. cbn [fst snd] in *. pose proof (mid_between a b I3) as Hmid.
+  do 2 f_equal.
+  - apply (pwc_at_const_on (fst f) (snd f) a b); auto.
+    intros z Hz. apply I4. apply sort_unique_In, in_or_app. left; auto.
+  - apply (pwc_at_const_on (fst g) (snd g) a b); auto.
+    intros z Hz. apply I4. apply sort_unique_In, in_or_app. right; auto.
+Qed.
+
+Lemma wf_in_range f : wf_pwc f ->
+  forall z, In z (fst f) -> nthF ROps (fst f) 0 <= z <= lastF ROps (fst f).
+Proof.
+  intros [[Hs _] _] z Hz. pose proof (ssorted_bounds _ Hs) as Hb.
+  rewrite Forall_forall in Hb. apply Hb; auto.
+Qed.
+
+(* 13 *)
+Theorem pwc_add_assoc : forall f g h, wf_pwc f -> wf_pwc g -> wf_pwc h ->
+  nthF ROps (fst f) 0 = nthF ROps (fst g) 0 -> lastF ROps (fst f) = lastF ROps (fst g) ->
+  nthF ROps (fst g) 0 = nthF ROps (fst h) 0 -> lastF ROps (fst g) = lastF ROps (fst h) ->
+  pwc_add_spec ROps (pwc_add_spec ROps f g) h = pwc_add_spec ROps f (pwc_add_spec ROps g h).
+Proof.
+  intros f g h Hf Hg Hh E0 EL E0' EL'.
+  rewrite (pwc_add_spec_unfold (pwc_add_spec ROps f g) h).
+  rewrite (pwc_add_spec_unfold f (pwc_add_spec ROps g h)).
+  set (fg := pwc_add_spec ROps f g). set (gh := pwc_add_spec ROps g h).
+  assert (Ffg : fst fg = sort_unique ROps (fst f ++ fst g)) by reflexivity.
+  assert (Fgh : fst gh = sort_unique ROps (fst g ++ fst h)) by reflexivity.
+  set (B := sort_unique ROps (fst f ++ fst gh)).
+  assert (HsB : ssorted B) by apply sort_unique_sorted.
+  assert (InB : forall x, In x B <-> In x (fst f) \/ In x (fst g) \/ In x (fst h)).
+  { intros x. unfold B. rewrite sort_unique_In, in_app_iff, Fgh, sort_unique_In, in_app_iff. tauto. }
+  assert (EB : sort_unique ROps (fst fg ++ fst h) = B).
+  { apply sort_unique_char; auto. intros x.
+    rewrite InB, in_app_iff, Ffg, sort_unique_In, in_app_iff. tauto. }
+  rewrite EB. f_equal. apply map_ext_in. intros q Hq.
+  destruct (pieces_In B HsB q Hq) as (I1 & I2 & I3 & I4).
+  destruct (wf_first_in f Hf) as (F1 & F2 & F3). destruct (wf_first_in g Hg) as (G1 & G2 & G3).
+  pose proof (wf_in_range f Hf) as Rf. pose proof (wf_in_range g Hg) as Rg.
+  pose proof (wf_in_range h Hh) as Rh.
+  set (x0 := nthF ROps (fst f) 0) in *. set (L := lastF ROps (fst f)) in *.
+  assert (RB : forall z, In z B -> x0 <= z <= L).
+  { intros z Hz. apply InB in Hz. destruct Hz as [Hz|[Hz|Hz]].
+    - apply Rf; auto.
+    - apply Rg in Hz. lra.
+    - apply Rh in Hz. lra. }
+  destruct q as [a b]. cbn [fst snd] in *. pose proof (mid_between a b I3) as Hmid.
+  set (m := mid ROps (a, b)) in *.
+  assert (HnB : ~ In m B).
+  { intros Hc. destruct (I4 m Hc); lra. }
+  pose proof (RB a I1) as Ra. pose proof (RB b I2) as Rb.
+  unfold addval. subst fg gh. change (mid ROps (a, b)) with m.
+  rewrite (add_spec_at f g m x0 L); [| apply in_or_app; left; auto | apply in_or_app; left; auto | lra |].
+  2:{ intros Hc. apply HnB, InB. apply in_app_or in Hc. tauto. }
+  rewrite (add_spec_at g h m x0 L);
+    [| apply in_or_app; left; rewrite E0; auto | apply in_or_app; left; rewrite EL; auto | lra |].
+  2:{ intros Hc. apply HnB, InB. apply in_app_or in Hc. tauto. }
+  rewrite !optsum_val. cbn [optval]. rewrite ?optsum_val. lra.
+Qed.
+
+(* ------------------------------------------------------------------ *)
+(* 8. the integral of the sum (11)                                      *)
+
+Lemma int_all_add (F G : R * R -> R) bs : forall P,
+  pwc_int_all ROps bs (map (fun q => F q + G q) P) =
+  pwc_int_all ROps bs (map F P) + pwc_int_all ROps bs (map G P).
+Proof.
+  induction bs as [|a bs IH]; intros P; [cbn; lra|].
+  destruct bs as [|b r]; [cbn; lra|]. destruct P as [|q P]; [cbn; lra|].
+  cbn [map]. rewrite !int_all_cons2, IH. ring.
+Qed.
+
+(* sampling a function on a refinement of its breakpoints keeps the integral *)
+Lemma refine_int : forall bs' b0 xs' ys,
+  ssorted (b0 :: bs') -> ssorted (b0 :: xs') -> length xs' = length ys ->
+  incl xs' bs' -> (forall z, In z bs' -> z <= lastF ROps (b0 :: xs')) ->
+  pwc_int_all ROps (b0 :: bs')
+    (map (fun q => optval (pwc_at ROps (b0 :: xs') ys (mid ROps q))) (pieces (b0 :: bs')))
+  = pwc_int_all ROps (b0 :: xs') ys.
+Proof.
+  induction bs' as [|b1 bs IH]; intros b0 xs' ys Hb Hx Hlen Hincl Hlast.
+  - destruct xs' as [|x1 xr]; [|exfalso; apply (Hincl x1); left; auto].
+    destruct ys; [reflexivity|discriminate].
+  - assert (H01 : b0 < b1) by (apply ssorted_cons_inv in Hb as [_ F]; inversion F; auto).
+    pose proof (ssorted_tl _ _ Hb) as Hb1.
+    pose proof (ssorted_hd_le _ _ Hb1) as Hge. rewrite Forall_forall in Hge.
+    destruct xs' as [|x1 xr].
+    { exfalso. specialize (Hlast b1 (or_introl eq_refl)). rewrite lastF_one in Hlast. lra. }
+    destruct ys as [|y ys]; [discriminate|]. cbn [length] in Hlen.
+    pose proof (ssorted_tl _ _ Hx) as Hx1.
+    assert (H0x : b0 < x1) by (apply ssorted_cons_inv in Hx as [_ F]; inversion F; auto).
+    pose proof (ssorted_hd_le _ _ Hx1) as Hgx. rewrite Forall_forall in Hgx.
+    assert (Hb1x : b1 <= x1) by (apply Hge, Hincl; left; auto).
+    pose proof (mid_between b0 b1 H01) as Hm.
+    rewrite pieces_cons2. cbn [map]. rewrite !int_all_cons2.
+    rewrite pwc_at_first by lra. cbn [optval].
+    rewrite lastF_cons2 in Hlast.
+    destruct (Req_dec b1 x1) as [E|N].
+    + subst x1.
+      rewrite (map_ext_in _ (fun q => optval (pwc_at ROps (b1 :: xr) ys (mid ROps q)))).
+      2:{ intros q Hq. pose proof (pieces_mid_gt b1 _ q Hb1 Hq).
+          rewrite pwc_at_skip by lra. reflexivity. }
+      rewrite (IH b1 xr ys Hb1 Hx1).
+      * ring.
+      * lia.
+      * intros z Hz. assert (Hz' : In z (b1 :: bs)) by (apply Hincl; right; auto).
+        destruct Hz' as [<-|]; auto. exfalso.
+        apply ssorted_cons_inv in Hx1 as [_ F]. rewrite Forall_forall in F. apply F in Hz. lra.
+      * intros z Hz. apply Hlast. right; auto.
+    + assert (Hlt : b1 < x1) by lra.
+      assert (Hx' : ssorted (b1 :: x1 :: xr)) by (apply ssorted_cons_lt; auto).
+      rewrite (map_ext_in _ (fun q => optval (pwc_at ROps (b1 :: x1 :: xr) (y :: ys) (mid ROps q)))).
+      2:{ intros q Hq. pose proof (pieces_mid_gt b1 _ q Hb1 Hq).
+          rewrite (pwc_at_rehead b0 b1) by lra. reflexivity. }
+      rewrite (IH b1 (x1 :: xr) (y :: ys) Hb1 Hx').
+      * rewrite int_all_cons2. ring.
+      * cbn [length]. lia.
+      * intros z Hz. assert (Hz' : In z (b1 :: bs)) by (apply Hincl; auto).
+        destruct Hz' as [<-|]; auto. exfalso. apply Hgx in Hz. lra.
+      * intros z Hz. rewrite lastF_cons2. apply Hlast. right; auto.
+Qed.
+
+Lemma refine_int_wf f B : wf_pwc f -> ssorted B -> incl (fst f) B ->
+  (forall z, In z B -> nthF ROps (fst f) 0 <= z <= lastF ROps (fst f)) ->
+  pwc_int_all ROps B (map (fun q => optval (pwc_at ROps (fst f) (snd f) (mid ROps q))) (pieces B))
+  = pwc_int_all ROps (fst f) (snd f).
+Proof.
+  destruct f as [xs ys]. intros [[Hs Hl] Hlen] HsB Hincl HR. cbn [fst snd] in *.
+  destruct xs as [|x0 xs']; [cbn in Hl; lia|]. rewrite nthF_0 in HR.
+  destruct B as [|b0 B']; [exfalso; apply (Hincl x0); left; auto|].
+  assert (b0 = x0).
+  { pose proof (HR b0 (or_introl eq_refl)) as [Hb _].
+    destruct (Hincl x0 (or_introl eq_refl)) as [|Hin]; auto.
+    apply ssorted_cons_inv in HsB as [_ F]. rewrite Forall_forall in F. apply F in Hin. lra. }
+  subst b0. apply refine_int; auto.
+  - intros z Hz. assert (Hz' : In z (x0 :: B')) by (apply Hincl; right; auto).
+    destruct Hz' as [<-|]; auto. exfalso.
+    apply ssorted_cons_inv in Hs as [_ F]. rewrite Forall_forall in F. apply F in Hz. lra.
+  - intros z Hz. apply HR. right; auto.
+Qed.
+
+Theorem pwc_add_integral : forall f g, wf_pwc f -> wf_pwc g ->
+  nthF ROps (fst f) 0 = nthF ROps (fst g) 0 -> lastF ROps (fst f) = lastF ROps (fst g) ->
+  pwc_int_all ROps (fst (pwc_add_spec ROps f g)) (snd (pwc_add_spec ROps f g)) =
+  pwc_int_all ROps (fst f) (snd f) + pwc_int_all ROps (fst g) (snd g).
+Proof.
+  intros f g Hf Hg E0 EL. rewrite pwc_add_spec_unfold. cbn [fst snd].
+  set (B := sort_unique ROps (fst f ++ fst g)).
+  assert (HsB : ssorted B) by apply sort_unique_sorted.
+  pose proof (wf_in_range f Hf) as Rf. pose proof (wf_in_range g Hg) as Rg.
+  assert (RB : forall z, In z B -> nthF ROps (fst f) 0 <= z <= lastF ROps (fst f)).
+  { intros z Hz. unfold B in Hz. apply (proj1 (sort_unique_In _ _)) in Hz.
+    apply in_app_or in Hz as [Hz|Hz]; [apply Rf; auto|]. rewrite E0, EL. apply Rg; auto. }
+  rewrite (map_ext (addval f g)
+             (fun q => optval (pwc_at ROps (fst f) (snd f) (mid ROps q))
+                       + optval (pwc_at ROps (fst g) (snd g) (mid ROps q))))
+    by (intros q; unfold addval; apply optsum_val).
+  rewrite int_all_add. f_equal.
+  - apply refine_int_wf; auto.
+    intros z Hz. apply sort_unique_In, in_or_app. left; auto.
+  - apply refine_int_wf; auto.
+    + intros z Hz. apply sort_unique_In, in_or_app. right; auto.
+    + intros z Hz. rewrite <- E0, <- EL. apply RB; auto.
+Qed.
+
+(* in terms of the model's own integral *)
+Corollary pwc_add_integral_model : forall f g, wf_pwc f -> wf_pwc g ->
+  nthF ROps (fst f) 0 = nthF ROps (fst g) 0 -> lastF ROps (fst f) = lastF ROps (fst g) ->
+  exists s, pwc_add ROps f g = Ok s /\
+    pwc_integral ROps s None =
+    Ok (pwc_int_all ROps (fst f) (snd f) + pwc_int_all ROps (fst g) (snd g)).
+Proof.
+  intros f g Hf Hg E0 EL. exists (pwc_add_spec ROps f g). split; [apply pwc_add_eq_spec; auto|].
+  rewrite <- pwc_add_integral by auto.
+  destruct (pwc_add_spec ROps f g) as [xs ys]. reflexivity.
+Qed.
+
+(* canonical form: equal breakpoints and equal values at the piece midpoints *)
+Lemma pwc_values_pieces xs : forall ys, ssorted xs -> length xs = S (length ys) ->
+  map Some ys = map (fun q => pwc_at ROps xs ys (mid ROps q)) (pieces xs).
+Proof.
+  induction xs as [|a xs IH]; intros ys Hs Hl; [discriminate|].
+  destruct xs as [|b r].
+  { destruct ys; [reflexivity|discriminate]. }
+  destruct ys as [|y ys]; [cbn in Hl; lia|].
+  assert (Hab : a < b) by (apply ssorted_cons_inv in Hs as [_ F]; inversion F; auto).
+  pose proof (ssorted_tl _ _ Hs) as Hs1. pose proof (mid_between a b Hab) as Hm.
+  rewrite pieces_cons2. cbn [map]. rewrite pwc_at_first by lra. f_equal.
+  rewrite (IH ys Hs1) by (cbn [length] in *; lia).
+  apply map_ext_in. intros q Hq. pose proof (pieces_mid_gt b _ q Hs1 Hq).
+  rewrite pwc_at_skip by lra. reflexivity.
+Qed.
+
+Lemma pwc_canonical xs ys ys' : ssorted xs -> length xs = S (length ys) -> length xs = S (length ys') ->
+  (forall q, In q (pieces xs) -> pwc_at ROps xs ys (mid ROps q) = pwc_at ROps xs ys' (mid ROps q)) ->
+  ys = ys'.
+Proof.
+  intros Hs H1 H2 H.
+  assert (E : map Some ys = map Some ys').
+  { rewrite (pwc_values_pieces xs ys), (pwc_values_pieces xs ys') by auto. apply map_ext_in. exact H. }
+  clear - E. revert ys' E. induction ys as [|y ys IH]; intros [|y' ys'] E; try discriminate; auto.
+  cbn [map] in E. injection E as E1 E2. subst. f_equal. auto.
+Qed.
+
+(* ------------------------------------------------------------------ *)
+Print Assumptions pwc_add_eq_spec.
+Print Assumptions pwc_integral_overlap.
+Print Assumptions pwc_overlap_additive.
+Print Assumptions pwc_call_scalar_eval.
+Print Assumptions pwc_call_paths_agree.
+Print Assumptions pwc_add_integral.
+Print Assumptions pwc_add_assoc.
